@@ -473,3 +473,89 @@ Check SrcTie3RepairLoop.convert_to_archive_sim.
 Theorem C05_tie_convert_to_archive_sim : ltac:(let t := type of SrcTie3RepairLoop.convert_to_archive_sim in exact t).
 Proof. exact SrcTie3RepairLoop.convert_to_archive_sim. Qed.
 Print Assumptions C05_tie_convert_to_archive_sim.
+
+(* ================= work package `carry`: C05 about the GENERATED convert_to_archive =================
+   Subject: gen/Src3r.v (see the matching section of C02.v for the premises RdBounded, the reading
+   `status_of` of the returned FailSafeReadError and the trusted link). *)
+From MLA Require SrcTie2 CarryRepair.
+From MLAGen Require Src2 Src3r.
+Import SrcTie2 SrcTie3Repair SrcTie3RepairLoop CarryRepair.
+
+(* an undamaged archive: the translated function returns Ok, its value reads as
+   EndOfOriginalArchiveData with nothing unfinished, and the output holds every file completely *)
+Theorem C05_repair_intact_complete_src :
+  forall FNMAX CACHE : N, FNMAX < 2 ^ 64 -> 0 < CACHE ->
+  forall TS TC TA TE : N,
+    TS <> TC /\ TS <> TA /\ TS <> TE /\ TC <> TA /\ TC <> TE /\ TA <> TE ->
+  forall H : bytes -> bytes, (forall x, len (H x) = 32) ->
+  forall (bl : list block) (trailer : bytes),
+    wf_blocks FNMAX H bl -> In BEnd bl \/ trailer = [] ->
+  forall (S : Stream) (R : st S -> N -> Prop) (s0 : st S) (fuel : nat),
+    RdBounded S ->
+    In BEnd bl -> Refines S (body TS TC TA TE bl ++ trailer) R -> R s0 0 ->
+    (N.to_nat (len (body TS TC TA TE bl ++ trailer)) < fuel)%nat ->
+    exists (l : Src3r.Locals S) (e : Src3r.FailSafeReadError) (obl : list block),
+      Src3r.convert_to_archive FNMAX CACHE TS TC TA TE H (footer_ser (fun f => f)) (fun _ => Ok tt) S
+        (block_from FNMAX TS TC TA TE S) fuel s0 aw_init = (l, Ok e) /\
+      status_of e = (FEndOfData, []) /\
+      good_output FNMAX TS TC TA TE H (absW (Src3r.l_output S l)) obl /\
+      Forall2 same (files_of bl) (files_of obl) /\
+      (forall f, In f (files_of bl) -> f_ended f = true).
+Proof. exact repair_intact_complete_src. Qed.
+
+(* nothing present before the cut is lost: for every file of the original, the content under its name
+   in the output of the translated function is exactly its content bytes lying before the cut *)
+Theorem C05_repair_max_src :
+  forall FNMAX CACHE : N, FNMAX < 2 ^ 64 -> 0 < CACHE ->
+  forall TS TC TA TE : N,
+    TS <> TC /\ TS <> TA /\ TS <> TE /\ TC <> TA /\ TC <> TE /\ TA <> TE ->
+  forall H : bytes -> bytes, (forall x, len (H x) = 32) ->
+  forall (bl : list block) (trailer : bytes),
+    wf_blocks FNMAX H bl -> In BEnd bl \/ trailer = [] ->
+  forall (n : N) (S : Stream) (R : st S -> N -> Prop) (s0 : st S) (fuel : nat),
+    RdBounded S ->
+    Refines S (takeN n (body TS TC TA TE bl ++ trailer)) R -> R s0 0 -> (N.to_nat n < fuel)%nat ->
+    exists (l : Src3r.Locals S) (e : Src3r.FailSafeReadError) (obl : list block),
+      Src3r.convert_to_archive FNMAX CACHE TS TC TA TE H (footer_ser (fun f => f)) (fun _ => Ok tt) S
+        (block_from FNMAX TS TC TA TE S) fuel s0 aw_init = (l, Ok e) /\
+      good_output FNMAX TS TC TA TE H (absW (Src3r.l_output S l)) obl /\
+      (forall f, In f (files_of bl) ->
+         content_of (files_of obl) (RepairSpec.f_name f) =
+         present (RepairSpec.f_id f) bl (N.min n (len (body TS TC TA TE bl ++ trailer)))).
+Proof. exact repair_max_src. Qed.
+Theorem C05_repair_max_any_prefix_src : ltac:(let t := type of repair_max_any_prefix_src in exact t).
+Proof. exact repair_max_any_prefix_src. Qed.
+Theorem C05_repair_intact_complete_throttled_src : ltac:(let t := type of repair_intact_complete_throttled_src in exact t).
+Proof. exact repair_intact_complete_throttled_src. Qed.
+
+(* non-vacuity THROUGH THE GENERATED CODE: the intact archive of C05_example_intact through a source
+   returning at most 3 bytes per read *)
+Example C05_example_intact_src :
+  match Src3r.convert_to_archive 48 4 0 1 254 255 ex_H (footer_ser (fun f => f)) (fun _ => Ok tt)
+          (Throttled ex_stream) (block_from 48 0 1 254 255 (Throttled ex_stream)) 200 (0, [3]) aw_init with
+  | (l, Ok e) => e = Src3r.EndOfOriginalArchiveData /\
+                 w_files (absW (Src3r.l_output _ l)) = [([97], 0); ([98], 1)] /\
+                 takeN 58 (Src2.dest (Src3r.l_output _ l)) =
+                   body 0 1 254 255 [BStart 0 [97]; BContent 0 [1;2;3;4]; BContent 0 [5;6]]
+  | _ => False
+  end.
+Proof. vm_compute. repeat split; reflexivity. Qed.
+Example C05_example_intact_src_premises :
+  exists l e obl,
+    Src3r.convert_to_archive 48 4 0 1 254 255 ex_H (footer_ser (fun f => f)) (fun _ => Ok tt)
+      (Throttled ex_stream) (block_from 48 0 1 254 255 (Throttled ex_stream)) 200 (0, [3]) aw_init = (l, Ok e) /\
+    status_of e = (FEndOfData, []) /\ Forall2 same (files_of ex_bl) (files_of obl).
+Proof.
+  destruct (C05_repair_intact_complete_src 48 4 ltac:(lia) ltac:(lia) 0 1 254 255
+              ltac:(repeat split; discriminate) ex_H ex_H_len ex_bl ex_trailer C02_example_wf
+              (or_introl ex_bl_end) (Throttled ex_stream) _ (0, [3]) 200%nat (RdBounded_throttled _) ex_bl_end
+              (throttled_refines _) ltac:(split; [reflexivity | apply N.le_0_l]) ltac:(vm_compute; lia))
+    as (l & e & obl & Hg & Hst & _ & Hs & _).
+  exists l, e, obl. auto.
+Qed.
+
+Print Assumptions C05_repair_intact_complete_src.
+Print Assumptions C05_repair_max_src.
+Print Assumptions C05_repair_max_any_prefix_src.
+Print Assumptions C05_repair_intact_complete_throttled_src.
+Print Assumptions C05_example_intact_src_premises.
